@@ -32,7 +32,13 @@ func VH_C11_DetachedArray() {
 		pm = append(pm, 1)
 	}
 	childIdx := uint64(len(pm))
-	err := parent.Append(child)
+	// the child is attached as it is or inside a wrapper value (Some-like)
+	wrapped := vhChoose("wrapped", 2) == 1
+	var attach Value = child
+	if wrapped {
+		attach = vWrapValue{inner: child, extra: 2}
+	}
+	err := parent.Append(attach)
 	vhAssert(err == nil, "setup: attach child")
 	if vhChoose("after", 2) == 1 {
 		_ = parent.Append(vElem{tag: 2, size: vhRange32("sibsz", 1, 117)})
@@ -43,7 +49,8 @@ func VH_C11_DetachedArray() {
 	if vhChoose("handle", 2) == 1 {
 		v, err := parent.Get(childIdx)
 		vhAssert(err == nil, "setup: lookup child")
-		h = v.(*Array)
+		u, _ := unwrapValue(v)
+		h = u.(*Array)
 	}
 	// detach: remove, overwrite, or bulk pop of the whole parent
 	var detached Storable
@@ -73,7 +80,7 @@ func VH_C11_DetachedArray() {
 	if err != nil {
 		return
 	}
-	sid, isRef := detached.(SlabIDStorable)
+	sid, isRef := unwrapStorable(detached).(SlabIDStorable)
 	if !popped {
 		vhAssert(isRef, "detached child is handed back as an independently stored value")
 		if !isRef {
